@@ -1018,82 +1018,85 @@ impl<'a> CompilerState<'a> {
                 }
             })
             .map_infix(|lhs, op, rhs| {
+                // An error in an operand (e.g. a division by zero) propagates
+                let lhs = lhs?;
+                let rhs = rhs?;
                 let res = match op.as_rule() {
-                    Rule::mul => lhs.unwrap() * rhs.unwrap(),
+                    Rule::mul => lhs * rhs,
                     Rule::div => {
-                        let d = rhs.unwrap();
+                        let d = rhs;
                         if d == 0 {
                             let start = op.as_span().start();
                             return Err(self.syntax_error("Division by zero", start));
                         }
-                        lhs.unwrap() / d
+                        lhs / d
                     }
-                    Rule::add => lhs.unwrap() + rhs.unwrap(),
-                    Rule::sub => lhs.unwrap() - rhs.unwrap(),
-                    Rule::and => lhs.unwrap() & rhs.unwrap(),
-                    Rule::or => lhs.unwrap() | rhs.unwrap(),
-                    Rule::xor => lhs.unwrap() ^ rhs.unwrap(),
-                    Rule::brs => lhs.unwrap() >> rhs.unwrap(),
-                    Rule::bls => lhs.unwrap() << rhs.unwrap(),
+                    Rule::add => lhs + rhs,
+                    Rule::sub => lhs - rhs,
+                    Rule::and => lhs & rhs,
+                    Rule::or => lhs | rhs,
+                    Rule::xor => lhs ^ rhs,
+                    Rule::brs => lhs >> rhs,
+                    Rule::bls => lhs << rhs,
                     Rule::land => {
-                        if lhs.unwrap() != 0 && rhs.unwrap() != 0 {
+                        if lhs != 0 && rhs != 0 {
                             1
                         } else {
                             0
                         }
                     }
                     Rule::lor => {
-                        if lhs.unwrap() != 0 || rhs.unwrap() != 0 {
+                        if lhs != 0 || rhs != 0 {
                             1
                         } else {
                             0
                         }
                     }
                     Rule::gt => {
-                        if lhs.unwrap() > rhs.unwrap() {
+                        if lhs > rhs {
                             1
                         } else {
                             0
                         }
                     }
                     Rule::gte => {
-                        if lhs.unwrap() >= rhs.unwrap() {
+                        if lhs >= rhs {
                             1
                         } else {
                             0
                         }
                     }
                     Rule::lt => {
-                        if lhs.unwrap() < rhs.unwrap() {
+                        if lhs < rhs {
                             1
                         } else {
                             0
                         }
                     }
                     Rule::lte => {
-                        if lhs.unwrap() <= rhs.unwrap() {
+                        if lhs <= rhs {
                             1
                         } else {
                             0
                         }
                     }
                     Rule::eq => {
-                        if lhs.unwrap() == rhs.unwrap() {
+                        if lhs == rhs {
                             1
                         } else {
                             0
                         }
                     }
                     Rule::neq => {
-                        if lhs.unwrap() != rhs.unwrap() {
+                        if lhs != rhs {
                             1
                         } else {
                             0
                         }
                     }
                     Rule::ternary_cond1 => {
-                        let l = lhs.unwrap();
-                        let r = rhs.unwrap();
+                        let l = lhs;
+                        let r = rhs;
                         debug!("t1: left: {} right: {}", l, r);
                         if l != 0 {
                             r
@@ -1102,8 +1105,8 @@ impl<'a> CompilerState<'a> {
                         }
                     }
                     Rule::ternary_cond2 => {
-                        let l = lhs.unwrap();
-                        let r = rhs.unwrap();
+                        let l = lhs;
+                        let r = rhs;
                         debug!("t2: left: {} right: {}", l, r);
                         if l == 0x7eaddead {
                             r
